@@ -767,3 +767,113 @@ theorem generate_body (c : Ctx) (hn : c.n < word) (hb : c.bad = none) (selfO : O
     collect_simp [Gen.Body.generate, Gen.Body.intrusiveDrop, exec_forSlots, hl, hb, hlen, e0]
 
 end GA.Bridge.BodyCollect
+
+namespace GA.Bridge.BodyCollect
+open GA.Body GA.Own GA.Bridge.Body
+
+/-! ### `FunctionalSequence::fold` for `GenericArray` (the array moves into an `ArrayConsumer`) -/
+
+theorem foldSpec_cons (fp : Nat → Bool) (x : Nat) (xs : List Nat) (k : Nat) (h : fp k = false) :
+    foldSpec fp (x :: xs) k = (.give k x :: (foldSpec fp xs (k + 1)).1, (foldSpec fp xs (k + 1)).2) := by
+  simp [foldSpec, callsSpec, h]
+
+theorem foldSpec_panic (fp : Nat → Bool) (x : Nat) (xs : List Nat) (k : Nat) (h : fp k = true) :
+    foldSpec fp (x :: xs) k = ([.give k x, .panic k] ++ xs.map .drop, false) := by
+  simp [foldSpec, callsSpec, h]
+
+/-- the model's fold loop over an `ArrayConsumer`, in closed form -/
+theorem own_foldLoop_eq (f : Nat → Bool) (xs : List Nat) :
+    ∀ (fuel j : Nat), xs.length - j < fuel → j ≤ xs.length →
+      ((foldLoop (foldSrc (.consumer Gen.Lib.foldPosNew Gen.Lib.foldAdvBeforeCall) f) fuel ⟨xs, j, j⟩).1 ++
+        (if (foldLoop (foldSrc (.consumer Gen.Lib.foldPosNew Gen.Lib.foldAdvBeforeCall) f) fuel ⟨xs, j, j⟩).2.1
+          then (foldLoop (foldSrc (.consumer Gen.Lib.foldPosNew Gen.Lib.foldAdvBeforeCall) f) fuel ⟨xs, j, j⟩).2.2.dropEv
+          else []),
+        (foldLoop (foldSrc (.consumer Gen.Lib.foldPosNew Gen.Lib.foldAdvBeforeCall) f) fuel ⟨xs, j, j⟩).2.1)
+      = foldSpec (fun k => !f k) (xs.drop j) j := by
+  intro fuel
+  induction fuel with
+  | zero => intro j h; omega
+  | succ fuel ih =>
+    intro j hf hj
+    by_cases hlt : j < xs.length
+    · have hx : xs[j]? = some xs[j] := List.getElem?_eq_getElem hlt
+      have ihj := ih (j + 1) (by omega) (by omega)
+      rw [List.drop_eq_getElem_cons hlt]
+      by_cases hfj : f j
+      · rw [foldSpec_cons _ _ _ _ (by simp [hfj]), ← ihj]
+        simp [foldLoop, foldSrc, hx, hfj, Side.after, Bridge.Lib.foldPosNew_eq, arg, Side.owns]
+      · rw [foldSpec_panic _ _ _ _ (by simp [hfj])]
+        simp [foldLoop, foldSrc, hx, hfj, Side.after, ga_bridge, Bridge.Lib.foldPosNew_eq, arg, Side.owns, Side.dropEv,
+          Consumer.dropEv]
+    · have hj' : j = xs.length := by omega
+      subst hj'
+      simp [foldLoop, foldSrc, foldSpec, callsSpec, Consumer.dropEv, Side.dropEv]
+
+theorem foldOp_owned_eq (f : Nat → Bool) (xs : List Nat) :
+    GA.Ops.foldOp .owned f xs = foldSpec (fun k => !f k) xs 0 := by
+  have h := own_foldLoop_eq f xs (xs.length + 1) 0 (by omega) (by omega)
+  simp only [List.drop_zero] at h
+  rw [← h]
+  rfl
+
+theorem callsSpec_full (f : Nat → Bool) : ∀ (xs : List Nat) (k : Nat),
+    (callsSpec f xs k).2.1 = true → (callsSpec f xs k).2.2 = xs.length
+  | [], _, _ => by simp [callsSpec]
+  | x :: xs, k, h => by
+    unfold callsSpec at h ⊢
+    by_cases hf : f k
+    · simp [hf] at h
+    · simp only [hf, Bool.false_eq_true, if_false] at h ⊢
+      simp [callsSpec_full f xs (k + 1) h]
+
+theorem gaFold_loop (c : Ctx) (slots : List Nat) (out : O) (ho fg : Bool) (pl : Nat) (of : Bool) :
+    ∀ (r i k : Nat), i + r ≤ slots.length → i + r < word →
+      loopOver (loopBody c (loopBodyOf Gen.Body.gaFold.body) []) ((List.range' i r).map (V.slot .self))
+          ⟨⟨slots, 0, 0, i, []⟩, out, ho, k, fg, pl, of⟩
+        = ((callsSpec c.fpan ((slots.drop i).take r) k).1,
+           (if (callsSpec c.fpan ((slots.drop i).take r) k).2.1 then R.ret .unit else R.panicked),
+           ⟨⟨slots, 0, 0, i + (callsSpec c.fpan ((slots.drop i).take r) k).2.2, []⟩, out, ho,
+             k + (callsSpec c.fpan ((slots.drop i).take r) k).2.2, fg, pl, of⟩) := by
+  intro r
+  induction r with
+  | zero => intro i k _ _; simp [loopOver, callsSpec]
+  | succ r ih =>
+    intro i k h1 h2
+    have hi : i < slots.length := by omega
+    have hi1 : i + 1 < word := by omega
+    rw [List.range'_succ, List.map_cons, List.drop_eq_getElem_cons hi]
+    simp only [List.take_succ_cons, loopOver, callsSpec]
+    by_cases hp : c.fpan k
+    · simp [loopBody, loopBodyOf, Gen.Body.gaFold, exec, eval, St.obj, St.putObj, O.get, O.put, natOf, hi, hi1, hp]
+    · have := ih (i + 1) (k + 1) (by omega) (by omega)
+      simp [loopBody, loopBodyOf, Gen.Body.gaFold, exec, eval, St.obj, St.putObj, O.get, O.put, natOf, hi, hi1, hp] at this ⊢
+      rw [this]
+      simp; omega
+
+/-- **`FunctionalSequence::fold` on an owned array, whole body**: the array moves into an
+    `ArrayConsumer`; each element is handed to the closure once, in order; if the closure panics
+    on any call, the consumer's destructor (also regenerated) releases exactly the elements not
+    yet handed out -/
+theorem gaFold_body (xs : List Nat) (hw : xs.length < word) (c : Ctx) (hbad : c.bad = none) (p0 : Nat) :
+    let r := runFn c Gen.Body.consumerDrop.body Gen.Body.gaFold []
+      ⟨⟨xs, 0, 0, p0, []⟩, ⟨[], 0, 0, 0, []⟩, false, 0, false, 0, false⟩
+    (r.1, r.2.1) = ((foldSpec c.fpan xs 0).1, if (foldSpec c.fpan xs 0).2 then R.ret .unit else R.panicked) := by
+  have hl := gaFold_loop c xs ⟨[], 0, 0, 0, []⟩ false false 0 false xs.length 0 0 (by omega) (by omega)
+  simp only [loopBodyOf, Gen.Body.gaFold, List.drop_zero, List.take_length] at hl
+  have hle := callsSpec_le c.fpan xs 0
+  generalize hsp : callsSpec c.fpan xs 0 = sp at hl hle
+  obtain ⟨ev, ok, cnt⟩ := sp
+  simp only at hle
+  cases ok
+  · have e1 : cnt ≤ xs.length := hle
+    body_simp_l [Gen.Body.gaFold, Gen.Body.consumerDrop, positions, hl, foldSpec, hsp, hbad, e1, GA.IterOwn.panics,
+      exec_set]
+    apply List.take_of_length_le
+    simp
+  · have hfull : cnt = xs.length := by
+      have := callsSpec_full c.fpan xs 0 (by rw [hsp])
+      rw [hsp] at this; exact this
+    subst hfull
+    body_simp_l [Gen.Body.gaFold, Gen.Body.consumerDrop, positions, hl, foldSpec, hsp, hbad, exec_set, GA.IterOwn.panics]
+
+end GA.Bridge.BodyCollect
